@@ -49,6 +49,32 @@ Local Open Scope Z_scope.
 """
 
 F8_SIG = "everyN-stale-trigger-after-counter-reset"
+NESTED_SIG = "nested-callbacklist-loses-parent"
+
+
+def nested_parent_users(tree):
+    """StopTrainingOnRewardThreshold / NoModelImprovement nodes that sit at least two CallbackLists deep below an EvalCallback
+    child slot: CallbackList._init_callback initialises a child list BEFORE handing it its own parent, so on the first learn()
+    the inner list passes parent=None on"""
+    out = []
+
+    def walk(t, depth, under_eval):
+        if t is None:
+            return
+        k = t["t"]
+        if k in ("thresh", "noimp") and under_eval and depth >= 2:
+            out.append(k)
+        if k == "list":
+            for c in t["ch"]:
+                walk(c, depth + 1, under_eval)
+        elif k == "everyn":
+            walk(t["c"], 0, False)
+        elif k == "eval":
+            walk(t["ob"], 0, True)
+            walk(t["af"], 0, True)
+
+    walk(tree, 0, False)
+    return out
 ALGOS = ["PPO", "A2C", "SAC", "DQN", "TD3"]
 
 
@@ -74,18 +100,18 @@ def gen_tree(rng, depth, under_best=False, top=False, evp=False):
         return {"t": "everyn", "n": rng.choice([1, 2, 3, 4, 5, 7, 9, rng.randint(1, 12)]), "c": gen_tree(rng, depth - 1, under_best)}
     if k == "eval":
         return {"t": "eval", "freq": rng.choice([0, 1, 2, 2, 3, 5]), "evals": [rng.randint(-6, 6) for _ in range(rng.randint(0, 12))],
-                "n_eval": rng.choice([1, 2, 3]),
+                "n_eval": rng.choice([1, 2, 3]), "raw_env": rng.random() < 0.3, "log": rng.random() < 0.4, "best": rng.random() < 0.4, "verbose": rng.choice([0, 0, 1]),
                 "ob": None if rng.random() < 0.3 else ({"t": "rec", "stop": rng.randint(1, 3)} if rng.random() < 0.25 else gen_tree(rng, depth - 1, True, evp=True)),
                 "af": None if rng.random() < 0.3 else gen_tree(rng, depth - 1, under_best, evp=True)}
     if k == "ckpt":
-        return {"t": "ckpt", "freq": rng.randint(1, 7), "rb": rng.random() < 0.5, "vn": rng.random() < 0.5}
+        return {"t": "ckpt", "freq": rng.randint(1, 7), "rb": rng.random() < 0.5, "vn": rng.random() < 0.5, "verbose": rng.choice([0, 2])}
     if k == "conv":
         return {"t": "conv", "stop": rng.choice([0, 0, 0, rng.randint(1, 14)])}
     if k == "thresh":
-        return {"t": "thresh", "thr": rng.randint(-4, 6)}
+        return {"t": "thresh", "thr": rng.randint(-4, 6), "verbose": rng.choice([0, 1])}
     if k == "noimp":
-        return {"t": "noimp", "mx": rng.randint(0, 3), "me": rng.randint(0, 3)}
-    return {"t": "maxep", "m": rng.randint(1, 4)}
+        return {"t": "noimp", "mx": rng.randint(0, 3), "me": rng.randint(0, 3), "verbose": rng.choice([0, 1])}
+    return {"t": "maxep", "m": rng.randint(1, 4), "verbose": rng.choice([0, 1])}
 
 
 def gen_case(rng, i):
@@ -101,9 +127,25 @@ def gen_case(rng, i):
         rk = ["step", rng.randint(1, 5)]
     calls = [{"total": rng.randint(1, 26), "reset": rng.random() < 0.5} for _ in range(rng.choice([1, 2, 2, 3]))]
     tree = gen_tree(rng, rng.randint(1, 4), top=True)
-    return {"id": i, "algo": algo, "n_envs": n_envs, "rk": rk, "calls": calls, "tree": tree,
+    # how the callback is handed to learn(): the object itself, a plain Python list of callbacks (learn() builds the CallbackList),
+    # a plain function (learn() builds a ConvertCallback), or None
+    root_mode = "object"
+    u = rng.random()
+    if u < 0.05:
+        tree, root_mode = None, "none"
+    elif u < 0.15:
+        tree, root_mode = {"t": "conv", "stop": rng.choice([0, 0, rng.randint(1, 14)])}, "function"
+    elif tree["t"] == "list" and tree["ch"] and rng.random() < 0.3:
+        root_mode = "list"
+    has_eval = any(t["t"] == "eval" for t in preorder(tree))
+    vecnorm = rng.random() < 0.3
+    if vecnorm and has_eval:
+        for t in preorder(tree):
+            if t["t"] == "eval":
+                t["raw_env"] = False          # the eval env must be wrapped like the training env
+    return {"id": i, "root_mode": root_mode, "algo": algo, "n_envs": n_envs, "rk": rk, "calls": calls, "tree": tree,
             "scripts": [se.gen_script(rng, max_len=5, tag_base=1000 * e) for e in range(n_envs)],
-            "real_eval": rng.random() < 0.12, "vecnorm": rng.random() < 0.3 and not any(t["t"] == "eval" for t in preorder(tree)), "learning_starts": rng.choice([0, 3, 1000]), "seed": rng.randint(0, 10**6)}
+            "real_eval": rng.random() < 0.12, "vecnorm": vecnorm, "learning_starts": rng.choice([0, 3, 1000]), "seed": rng.randint(0, 10**6)}
 
 
 def coq_tree(t, ne):
@@ -248,35 +290,54 @@ def run_impl(case):
         elif k == "eval":
             from stable_baselines3.common.monitor import Monitor
 
-            ev_script = {"episodes": [{"reset_tag": 1, "reset_info": 0, "steps": [{"tag": 2, "r4": 4 * ((j % 5) - 2), "term": True, "trunc": False, "info": 0}]} for j in range(7)]}
-            eval_env = DummyVecEnv([lambda: Monitor(se.ScriptedEnv(ev_script, obs_kind="box1", act_kind=act_kind))])
+            ev_script = {"episodes": [{"reset_tag": 1, "reset_info": 0, "steps": [{"tag": 2, "r4": 4 * ((j % 5) - 2), "term": True, "trunc": False, "info": 0,
+                                                                                      "is_success": j % 2 == 0}]} for j in range(7)]}
+            raw = Monitor(se.ScriptedEnv(ev_script, obs_kind="box1", act_kind=act_kind))
+            if t.get("raw_env") and not case.get("vecnorm"):
+                eval_env = raw                                      # a plain gym.Env: EvalCallback wraps it in a DummyVecEnv itself
+            elif case.get("vecnorm"):
+                from stable_baselines3.common.vec_env import VecNormalize
+
+                class Pass(VecEnvWrapper):                          # same wrapper depth as the training env (Stamp)
+                    def reset(self):
+                        return self.venv.reset()
+
+                    def step_wait(self):
+                        return self.venv.step_wait()
+
+                eval_env = VecNormalize(Pass(DummyVecEnv([lambda: raw])), training=False, norm_obs=True, norm_reward=False, clip_obs=1e9)
+            else:
+                eval_env = DummyVecEnv([lambda: raw])
             ob = build(t["ob"])
             af = build(t["af"])
             o = cbm.EvalCallback(eval_env, callback_on_new_best=ob, callback_after_eval=af, n_eval_episodes=t.get("n_eval", 2), eval_freq=t["freq"],
-                                 verbose=0, warn=False)
+                                 verbose=t.get("verbose", 0), warn=False,
+                                 log_path=os.path.join(tmp, f"evallog{idx}") if t.get("log") else None,
+                                 best_model_save_path=os.path.join(tmp, f"best{idx}") if t.get("best") else None)
             o._verif_idx = idx
             o._verif_queue = list(t["evals"])
             eval_log[idx] = {"at": [], "means": [], "n_eval": []}
         elif k == "ckpt":
             o = cbm.CheckpointCallback(save_freq=t["freq"], save_path=tmp, name_prefix=f"ck{idx}x", save_replay_buffer=bool(t.get("rb")),
-                                       save_vecnormalize=bool(t.get("vn")))
+                                       save_vecnormalize=bool(t.get("vn")), verbose=t.get("verbose", 0))
         elif k == "conv":
             clog = []
 
             def fn(locals_, globals_, clog=clog, idx=idx):
-                oo = nodes[idx][1]
                 infos = locals_.get("infos")
-                clog.append([2, int(oo.n_calls), int(oo.num_timesteps), int(infos[0]["vstep"]) if infos else -1])
-                return oo.n_calls != nodes[idx][0]["stop"]
+                # a plain function only sees locals / globals: it keeps its own call count; the timestep counter is the model's
+                clog.append([2, len(clog) + 1, int(model.num_timesteps), int(infos[0]["vstep"]) if infos else -1])
+                return len(clog) != nodes[idx][0]["stop"]
 
             o = cbm.ConvertCallback(fn)
             o._verif_log = clog
+            o._verif_fn = fn
         elif k == "thresh":
-            o = cbm.StopTrainingOnRewardThreshold(reward_threshold=float(t["thr"]), verbose=0)
+            o = cbm.StopTrainingOnRewardThreshold(reward_threshold=float(t["thr"]), verbose=t.get("verbose", 0))
         elif k == "noimp":
-            o = cbm.StopTrainingOnNoModelImprovement(max_no_improvement_evals=t["mx"], min_evals=t["me"], verbose=0)
+            o = cbm.StopTrainingOnNoModelImprovement(max_no_improvement_evals=t["mx"], min_evals=t["me"], verbose=t.get("verbose", 0))
         elif k == "maxep":
-            o = cbm.StopTrainingOnMaxEpisodes(max_episodes=t["m"])
+            o = cbm.StopTrainingOnMaxEpisodes(max_episodes=t["m"], verbose=t.get("verbose", 0))
         else:
             raise ValueError(k)
         nodes[idx][1] = o
@@ -292,6 +353,8 @@ def run_impl(case):
         rec["at"].append([int(owner.n_calls), int(owner.num_timesteps)])
         rec["n_eval"].append(int(n_eval_episodes))
         rec.setdefault("env", []).append(int(venv.count))
+        if case.get("vecnorm"):
+            rec.setdefault("sync", []).append(bool(np.allclose(owner.eval_env.obs_rms.mean, train_env.obs_rms.mean) and np.allclose(owner.eval_env.obs_rms.var, train_env.obs_rms.var)))
         if case["real_eval"]:
             rews, lens = real_eval(model, env, n_eval_episodes=n_eval_episodes, callback=callback, **kw)
             m8 = float(np.mean(rews)) * 24
@@ -336,7 +399,12 @@ def run_impl(case):
 
         obj.on_training_start, obj.on_rollout_start, obj.update_locals, obj.on_step, obj.on_rollout_end, obj.on_training_end = ts, rs, ul, st, re_, te
 
-    wrap_root(root)
+    root_mode = case.get("root_mode", "object")
+    if root_mode == "object":
+        wrap_root(root)
+        cb_arg = root
+    else:
+        cb_arg = {"list": lambda: list(root.callbacks), "function": lambda: root._verif_fn, "none": lambda: None}[root_mode]()
 
     th.manual_seed(case["seed"])
     pk = dict(net_arch=[8])
@@ -350,7 +418,17 @@ def run_impl(case):
         cls = getattr(sb3, algo)
         model = cls("MlpPolicy", train_env, train_freq=tf, learning_starts=case["learning_starts"], batch_size=4, buffer_size=200, gradient_steps=1,
                     policy_kwargs=pk, device="cpu", seed=case["seed"])
+    made_roots = []
     mcls = type(model)
+    o_ic = mcls._init_callback
+    if root_mode != "object":
+        def init_cb(self_, callback, progress_bar=False):
+            r = o_ic(self_, callback, progress_bar)       # learn() builds the root itself (CallbackList / ConvertCallback) at every call
+            wrap_root(r)
+            made_roots.append(r)
+            return r
+
+        mcls._init_callback = init_cb                    # class-level patch (an instance attribute would be pickled by model.save)
     orig_save = mcls.save
 
     def rec_save(self_, path, *a, **k):
@@ -389,7 +467,11 @@ def run_impl(case):
                 n0 = len(venv.steps)
                 last_before = {i: int(o.last_time_trigger) for i, (t, o) in enumerate(nodes) if t["t"] == "everyn"}
                 fired_before = {i: len(fired_log[i]) for i in fired_log}
-                model.learn(total_timesteps=c["total"], callback=root, reset_num_timesteps=c["reset"])
+                import contextlib
+                import io
+
+                with contextlib.redirect_stdout(io.StringIO()):
+                    model.learn(total_timesteps=c["total"], callback=cb_arg, reset_num_timesteps=c["reset"])
                 call_info.append({"dones": [d for _, d in venv.steps[n0:]], "nt_end": int(model.num_timesteps), "last_before": last_before,
                                   "fired": {i: fired_log[i][fired_before[i]:] for i in fired_log}})
     except Exception as e:  # noqa: BLE001
@@ -399,10 +481,26 @@ def run_impl(case):
     finally:
         cbm.evaluate_policy = real_eval
         mcls.save = orig_save
+        mcls._init_callback = o_ic
         _VN.save = orig_vns
         if orig_srb is not None:
             mcls.save_replay_buffer = orig_srb
     files = sorted(os.listdir(tmp))
+    eval_files = {}
+    for i, (t, o) in enumerate(nodes):
+        if t["t"] == "eval":
+            ef = {}
+            if t.get("log"):
+                pth = os.path.join(tmp, f"evallog{i}", "evaluations.npz")
+                if os.path.exists(pth):
+                    z = np.load(pth)
+                    ef["timesteps"] = [int(x) for x in z["timesteps"]]
+                    ef["n_results"] = [int(np.asarray(r).size) for r in z["results"]]
+                else:
+                    ef["timesteps"] = None
+            if t.get("best"):
+                ef["best_exists"] = os.path.exists(os.path.join(tmp, f"best{i}", "best_model.zip"))
+            eval_files[str(i)] = ef
     import shutil
 
     shutil.rmtree(tmp, ignore_errors=True)
@@ -427,6 +525,9 @@ def run_impl(case):
             code, ent = 5, [[8, 0, 0, int(o.n_episodes)]]
         elif k == "conv":
             code, ent = 6, o._verif_log
+            if case.get("root_mode") == "function":
+                obs_nodes.append([code, len(ent), ent[-1][2] if ent else 0, ent])
+                continue
         elif k == "thresh":
             code = 7
         else:
@@ -437,7 +538,8 @@ def run_impl(case):
         obs_nodes.append([code, int(o.n_calls), int(o.num_timesteps), ent])
     return {"error": err, "root_trace": root_trace, "envcount": envcount, "nodes": obs_nodes, "calls": call_info,
             "eval_means": {str(i): eval_log[i]["means"] for i in eval_log}, "files": files,
-            "saves": save_log, "aux_saves": aux_saves, "eval_n": {str(i): eval_log[i]["n_eval"] for i in eval_log}, "eval_env": {str(i): eval_log[i].get("env", []) for i in eval_log},
+            "saves": save_log, "eval_files": eval_files, "eval_sync": {str(i): eval_log[i].get("sync", []) for i in eval_log},
+            "made_roots": [[type(r).__name__, int(r.n_calls), int(r.num_timesteps)] for r in made_roots], "aux_saves": aux_saves, "eval_n": {str(i): eval_log[i]["n_eval"] for i in eval_log}, "eval_env": {str(i): eval_log[i].get("env", []) for i in eval_log},
             "off_policy": algo not in ("PPO", "A2C"), "locals_ok": [bool(o.locals_ok) for t, o in nodes if t["t"] == "rec"],
             "final": [int(model.num_timesteps), int(venv.count)]}
 
@@ -726,6 +828,21 @@ def oracle(case, impl):
                     probs.append(("oracle-no-improvement-stopped-early", f"eval node {i}: training stopped at env step {ec} after {cnt} consecutive evaluations without a new best "
                                                                          f"(max {af['mx']}, min_evals {af['me']}, means {means}); nothing else in the tree can stop training"))
     for i, t in enumerate(specs):
+        if t["t"] != "eval":
+            continue
+        ef = impl.get("eval_files", {}).get(str(i), {})
+        at = impl["nodes"][i][3][1:]
+        if t.get("log"):
+            want_ts = [e[2] for e in at]
+            if (ef.get("timesteps") or []) != want_ts and (want_ts or ef.get("timesteps")):
+                probs.append(("oracle-eval-log-file", f"eval node {i}: evaluations.npz timesteps {ef.get('timesteps')}, evaluations happened at num_timesteps {want_ts}"))
+            if ef.get("n_results") and any(n != t.get("n_eval", 2) for n in ef["n_results"]):
+                probs.append(("oracle-eval-log-file", f"eval node {i}: evaluations.npz rows hold {ef['n_results']} episode rewards, n_eval_episodes = {t.get('n_eval', 2)}"))
+        if t.get("best") and ef.get("best_exists") != bool(at):
+            probs.append(("oracle-eval-best-model-file", f"eval node {i}: best_model.zip exists = {ef.get('best_exists')}, {len(at)} evaluations happened (the first one always improves on -inf)"))
+        if not all(impl.get("eval_sync", {}).get(str(i), [])):
+            probs.append(("oracle-eval-normalisation-not-synced", f"eval node {i}: the eval env's VecNormalize statistics differ from the training env's at an evaluation"))
+    for i, t in enumerate(specs):
         if t["t"] == "eval" and any(n != t.get("n_eval", 2) for n in impl.get("eval_n", {}).get(str(i), [])):
             probs.append(("oracle-eval-n-episodes", f"eval node {i}: evaluate_policy was asked for {impl['eval_n'][str(i)]} episodes, configured {t.get('n_eval', 2)}"))
     return probs
@@ -775,6 +892,10 @@ def compare(case, impl, mv):
             probs.append(("root-trace", f"number of learn() traces {len(real)} vs {len(modl)}"))
     rn = [(k, c, t, [tuple(e) for e in ent]) for k, c, t, ent in impl["nodes"]]
     mn = [(k, c, t, [tuple(e) for e in ent]) for k, c, t, ent in nodes]
+    if case.get("root_mode") == "list" and rn and mn:
+        rn[0] = mn[0]          # learn() built its own CallbackList from the Python list at every call: the spec's root object is never used
+    if case.get("root_mode") == "function" and rn and mn:
+        rn[0] = (rn[0][0], rn[0][1], mn[0][2], rn[0][3])   # a plain function has no num_timesteps attribute of its own
     if rn != mn:
         for i, (a, b) in enumerate(zip(rn, mn)):
             if a != b:
@@ -801,7 +922,12 @@ def run_cases(chk, cases, procs=4):
         results[i] = oracle(cases[i], impls[i]) + [("model-correspondence-" + s, m) for s, m in compare(cases[i], impls[i], v)]
     for i, im in enumerate(impls):
         if im.get("error"):
-            results[i] = [("impl-exception", im["error"][-600:])]
+            if "must be used with an ``EvalCallback``" in im["error"] and nested_parent_users(cases[i]["tree"]):
+                results[i] = [(NESTED_SIG, "a StopTrainingOnRewardThreshold / StopTrainingOnNoModelImprovement placed two CallbackLists deep below an EvalCallback "
+                                           "raises on the first learn(): AssertionError ... must be used with an ``EvalCallback`` (its parent is None: "
+                                           "CallbackList._init_callback initialises the inner list before giving it its parent); tree: " + json.dumps(cases[i]["tree"])[:300])]
+            else:
+                results[i] = [("impl-exception", im["error"][-600:])]
     return impls, results
 
 
@@ -856,11 +982,11 @@ def main():
                     sigs.append(s)
             # a known finding and something else in the same case are reported separately
             for s in sigs:
-                if s == F8_SIG and s not in reported:
+                if s in (F8_SIG, NESTED_SIG) and s not in reported:
                     reported.add(s)
                     chk.violation(s, "; ".join(m for s2, m in probs if s2 == s)[:600], {"case": c, "impl_root_trace": im.get("root_trace")}, found_input=True)
-            rest = [(s, m) for s, m in probs if s != F8_SIG]
-            if rest and len([v for v in chk.violations if v["signature"] != F8_SIG]) < 3:
+            rest = [(s, m) for s, m in probs if s not in (F8_SIG, NESTED_SIG)]
+            if rest and len([v for v in chk.violations if v["signature"] not in (F8_SIG, NESTED_SIG)]) < 3:
                 report(chk, c, im, rest)
     chk.coverage["evaluations"] = len(cases)
     chk.coverage["traces_validated_against_impl"] = sum(1 for im in impls if not im.get("error"))
